@@ -4,7 +4,9 @@ import numpy as np
 from . import core, synth, stackgen as G, check_stack as CS
 
 THEOREMS = ['C18.group_partition', 'C18.group_skip_fault', 'C18.group_strict_raises', 'C18.first_fit_joins',
-            'C18.first_fit_new', 'C18.stack_group_skip', 'C18.stack_group_strict']
+            'C18.first_fit_new', 'C18.stack_group_skip', 'C18.stack_group_strict',
+            'C18.loop_on_files', 'C18.together_iff', 'C18.group_order_independent',
+            'C18.order_matters_without_transitivity']
 
 
 def write_ds(ds, path):
@@ -122,6 +124,38 @@ def canon_groups(g):
     return sorted(sorted(x[2] for x in grp) for grp in g.values())
 
 
+def chained_tolerance_probe(rep):
+    """orientations a, a+4e-5, a+8e-5: neighbours are within np.allclose(atol=5e-5), the ends are not.
+    Closeness is then not transitive (the hypothesis of C18.together_iff fails) and first-fit grouping
+    depends on the path order (Lean: C18.order_matters_without_transitivity) -- finding F28."""
+    import random
+    import dcmstack
+    r = random.Random(3)
+    series = G.gen_series(r, 'quick', S=3, T=1, V=1, ordering='explicit', orient='axial')
+    tmp = tempfile.mkdtemp(prefix='dcmverif_c18p_')
+    try:
+        paths = []
+        for i, f in enumerate(series['files']):
+            iop = list(series['iop'])
+            iop[1] += 4e-5 * i
+            f['meta'].update({'SeriesInstanceUID': '1.2.3', 'SeriesNumber': 1, 'ProtocolName': 'p'})
+            p = os.path.join(tmp, 'f%d.dcm' % i)
+            write_ds(G.dataset_of(series, f, iop=iop), p)
+            paths.append(p)
+        parts = set()
+        for order in ([0, 1, 2], [1, 0, 2], [2, 1, 0]):
+            st, g, _ = run_group([paths[i] for i in order], False)
+            parts.add(json.dumps(canon_groups(g)) if st == 'ok' else st)
+        rep.evaluations += 1
+        rep.count('group/chained_tolerance_probe')
+        if len(parts) != 1:
+            rep.failure('orientations chained within the tolerance (a, a+4e-5, a+8e-5): the groups depend on the path order',
+                        {'tag': 'group:order:chained-tolerance', 'suite': 'group',
+                         'orders': [[0, 1, 2], [1, 0, 2], [2, 1, 0]], 'partitions': len(parts)})
+    finally:
+        shutil.rmtree(tmp, ignore_errors=True)
+
+
 def main(pid, tier):
     import dcmstack
     rep = core.Report(pid, tier)
@@ -133,6 +167,7 @@ def main(pid, tier):
     ]
     core.prove(rep, pid, THEOREMS)
     r = core.rng(pid)
+    chained_tolerance_probe(rep)
     drv = core.Driver()
     n = 40 if tier == 'quick' else 600
     reqs, meta = [], []
